@@ -56,6 +56,8 @@ def rand_cyclic(rng):
         g.add_edges_from([(rng.choice(ins), "dl0"), ("dl1", "dl0"), ("dl0", "dl1"), (rng.choice(ins), "dl1")])
     if nx.is_directed_acyclic_graph(g) or g.number_of_nodes() > 13:
         return None
+    if rng.random() < 0.2:
+        g.add_node("test_en", type="input", output=False)       # a declared primary input nothing reads
     if rng.random() < 0.15:
         # primary inputs named like nodes of the unrolled copies (c0_<n>, c1_<n>)
         ins = [n for n in g.nodes if g.nodes[n]["type"] == "input"]
